@@ -265,7 +265,11 @@ KNOWN_POS = {TAG_KEYWORD.ARG0: 1, TAG_KEYWORD.ARG1: 2, TAG_KEYWORD.ARG2: 3, TAG_
 WILDCARD = (TAG_KEYWORD.TARGET, "")
 
 
-def run_sink(present, tainted, targets, rule_op="call_stmt", object_call=False):
+SCOPES = [dict(), dict(unit_name="a.py"), dict(unit_name="b.py"), dict(line_num=4), dict(line_num=9)]   # the call is a.py line 4
+IN_SCOPE = [True, True, False, True, False]
+
+
+def run_sink(present, tainted, targets, rule_op="call_stmt", object_call=False, scope=0, split=False):
     """call_stmt `sink(...)` (or object_call_stmt `db.sink(...)`) whose operand at position k exists iff present[k] and carries
     bit k+1 iff tainted[k].  Returns (got_tag or 'raised X', want_tag)."""
     g = StateFlowGraph(1)
@@ -289,8 +293,16 @@ def run_sink(present, tainted, targets, rule_op="call_stmt", object_call=False):
     tobj.sfg = g.graph
     tobj.taint_manager = env
     applier = ta_mod.TaintRuleApplier.__new__(ta_mod.TaintRuleApplier)
-    rule = Rule(operation=rule_op, name="sink", target=list(targets), vuln_type="v")
-    applier.rule_manager = types.SimpleNamespace(all_sinks=[rule], all_sinks_from_code=[])
+    if split and len(targets) > 1:           # first target in a (possibly restricted) rule of its own, the rest unrestricted
+        rules = [Rule(operation=rule_op, name="sink", target=[targets[0]], vuln_type="v", **SCOPES[scope]),
+                 Rule(operation=rule_op, name="sink", target=list(targets[1:]), vuln_type="v")]
+        effective = (list(targets[:1]) if IN_SCOPE[scope] else []) + list(targets[1:])
+    else:
+        rules = [Rule(operation=rule_op, name="sink", target=list(targets), vuln_type="v", **SCOPES[scope])]
+        effective = list(targets) if IN_SCOPE[scope] else []
+    applier.rule_manager = types.SimpleNamespace(all_sinks=rules, all_sinks_from_code=[])
+    applier.loader = types.SimpleNamespace(convert_stmt_id_to_unit_id=lambda sid: 7,
+                                           convert_module_id_to_module_info=lambda uid: types.SimpleNamespace(original_path="/p/a.py", unit_path="ws/src/a.py"))
     applier.taint_analysis = tobj
     applier.sfg = g.graph
     tobj.rule_applier = applier
@@ -300,7 +312,7 @@ def run_sink(present, tainted, targets, rule_op="call_stmt", object_call=False):
         got = f"raised {type(e).__name__}"
     want = 0
     if rule_op == "call_stmt" or object_call:
-        for t in targets:
+        for t in effective:
             for k in range(len(present)):
                 if not (present[k] and tainted[k]):
                     continue
@@ -330,20 +342,27 @@ def _sink_pre(s0, s1, s2, t0, t1, op):
     return True
 
 
+def _scope_of_slice():
+    return int(SLICE.get("scope", 0)), bool(SLICE.get("split", False))
+
+
 def check_sink_positions(s0: int, s1: int, s2: int, t0: int, t1: int, op: int) -> bool:
     """
     pre: _sink_pre(s0, s1, s2, t0, t1, op)
     post: _
     """
+    scope, split = _scope_of_slice()
     targets = [TARGETS[t0]] + ([TARGETS[t1]] if t1 >= 0 else [])
     present = [int(v > 0) for v in (s0, s1, s2)]
     tainted = [int(v == 2) for v in (s0, s1, s2)]
     if op == 2:                               # object call: operands at positions 0 (receiver), 2, 3 (arguments 0 and 1)
         present = [present[0], 0, present[1], present[2]]
         tainted = [tainted[0], 0, tainted[1], tainted[2]]
-    got, want = run_sink(present, tainted, targets, "field_write" if op == 1 else "call_stmt", object_call=(op == 2))
+    got, want = run_sink(present, tainted, targets, "field_write" if op == 1 else "call_stmt", object_call=(op == 2),
+                         scope=scope, split=split)
     if got != want:
-        return fail("sink-position", present=present, tainted=tainted, targets=[t0, t1], op=op, got=str(got), want=want)
+        return fail("sink-position", present=present, tainted=tainted, targets=[t0, t1], op=op, got=str(got), want=want,
+                    scope=scope, split=split)
     return True
 
 
@@ -355,12 +374,14 @@ def replay(func, cex):   # noqa: F811
         t0, t1 = cex["targets"]
         targets = [TARGETS[t0]] + ([TARGETS[t1]] if t1 >= 0 else [])
         got, want = run_sink(cex["present"], cex["tainted"], targets, "field_write" if cex["op"] == 1 else "call_stmt",
-                             object_call=(cex["op"] == 2))
+                             object_call=(cex["op"] == 2), scope=cex.get("scope", 0), split=cex.get("split", False))
+        restr = f" [first target in a rule restricted by {SCOPES[cex.get('scope', 0)]}, call is a.py line 4" + \
+                (", the other targets in an unrestricted rule]" if cex.get("split") else "]") if cex.get("scope") else ""
         return {"violated": got != want, "observed": str(got),
-                "what": f"sink rule (operation {['call_stmt', 'field_write', 'object_call'][cex['op']]}, target {targets}) on {'db.sink' if cex['op'] == 2 else 'sink'}(...) with "
+                "what": f"sink rule{restr} (operation {['call_stmt', 'field_write', 'object_call'][cex['op']]}, target {targets}) on {'db.sink' if cex['op'] == 2 else 'sink'}(...) with "
                         f"operands present at positions {[k for k in range(len(cex['present'])) if cex['present'][k]]}, tainted "
                         f"{[k for k in range(len(cex['present'])) if cex['present'][k] and cex['tainted'][k]]}: sink tag {got}, designated positions give {want}",
-                "fingerprint": f"sink-position:{targets}:{'raise' if isinstance(got, str) else 'tag'}"}
+                "fingerprint": f"sink-position:{targets}:{'raise' if isinstance(got, str) else 'tag'}" + (f":scope{cex.get('scope')}" if cex.get("scope") else "")}
     return _replay_sfg(func, cex)
 
 
